@@ -187,7 +187,9 @@ def trace_events(seed, n):
     for tid in range(1, n + 1):
         def rnd(src, dst):
             ax = [rng.gauss(0, 1) for _ in range(3)]
-            q = Quaternion(axis=ax, radians=rng.uniform(-math.pi, math.pi))
+            # any angle, with the special ones drawn often: tiny (a nearly aligned sensor), half / quarter turns, exactly zero
+            ang = rng.uniform(-math.pi, math.pi) if rng.random() < 0.6 else rng.choice([0.0, 1e-4, -3e-3, 5e-3, 8e-3, -0.02, math.pi, -math.pi / 2, math.pi - 1e-3])
+            q = Quaternion(axis=ax, radians=ang)
             if rng.random() < 0.5:
                 q = Quaternion(-q.elements)
             t = [rng.uniform(-1000, 1000) for _ in range(3)]
